@@ -67,6 +67,13 @@ def pid_has_own_hang_rule(pid: str) -> bool:
 
 
 def run_scenario(prop: Prop, scn: Dict[str, Any]):
+    # a replay file may carry a prelude: scenarios the same process had executed before this one (only when the
+    # violation depends on state the code under test keeps for the lifetime of a process)
+    for pre in scn.get("prelude", []):
+        try:
+            execute(pre)
+        except Exception:  # noqa
+            pass
     run = execute(scn)
     if getattr(run, "cap", None):
         raise RuntimeError("run cap exceeded: %s" % run.cap)
@@ -85,6 +92,86 @@ def run_scenario(prop: Prop, scn: Dict[str, Any]):
         if not any(k.endswith("/hang") or "/hang/" in k for k, _ in viols):
             viols = list(viols) + [(key, "the event loop went idle forever with an operation still pending: %s" % run.deadlock)]
     return run, viols, counters
+
+
+class IsolatedRun:
+    """What a scenario executed in its own process reports back (the run object itself stays in the child)."""
+
+    def __init__(self, d: Dict[str, Any]):
+        self.digest = d["digest"]
+        self.sig = d["sig"]
+        self.mono_end = d["mono_end"]
+        self.fired = d["fired"]
+
+
+def _fork_call(fn: Callable[[], Any], timeout: float) -> Any:
+    """Run fn() in a forked child and return its (picklable) result."""
+    import pickle
+    import select
+    import signal
+    r, w = os.pipe()
+    sys.stdout.flush()
+    sys.stderr.flush()
+    child = os.fork()
+    if child == 0:
+        code = 0
+        try:
+            os.close(r)
+            try:
+                blob = pickle.dumps(("ok", fn()))
+            except BaseException:  # noqa
+                blob = pickle.dumps(("err", traceback.format_exc()[-3000:]))
+            with os.fdopen(w, "wb") as fh:
+                fh.write(blob)
+            sys.stdout.flush()
+            sys.stderr.flush()
+        except BaseException:  # noqa
+            code = 3
+        finally:
+            os._exit(code)
+    os.close(w)
+    chunks = []
+    deadline = time.time() + timeout
+    try:
+        while True:
+            left = deadline - time.time()
+            if left <= 0:
+                os.kill(child, signal.SIGKILL)
+                os.waitpid(child, 0)
+                raise RuntimeError("forked run exceeded %.0f s of wall time" % timeout)
+            ready, _, _ = select.select([r], [], [], min(left, 5.0))
+            if ready:
+                b = os.read(r, 1 << 20)
+                if not b:
+                    break
+                chunks.append(b)
+    finally:
+        os.close(r)
+    _, status = os.waitpid(child, 0)
+    if not chunks:
+        raise RuntimeError("forked run died without a report (wait status %d)" % status)
+    msg = pickle.loads(b"".join(chunks))
+    if msg[0] == "err":
+        raise RuntimeError("forked run failed:\n" + msg[1])
+    return msg[1]
+
+
+def _summary(prop: Prop, scn: Dict[str, Any]):
+    run, viols, counters = run_scenario(prop, scn)
+    fired = getattr(run, "fired", None)
+    if fired is None and getattr(run, "sim", None) is not None:
+        fired = run.sim.fired
+    return ({"digest": run.digest, "sig": run.sig, "mono_end": getattr(run, "mono_end", 0.0), "fired": dict(fired or {})},
+            list(viols), dict(counters))
+
+
+def run_isolated(prop: Prop, scn: Dict[str, Any], timeout: float = 600.0):
+    """One scenario (with its prelude, if any) = one process lifetime: fork from a process that has never run a
+    scenario, run and judge in the child, report through a pipe.  Whatever the code under test (or a library below
+    it) keeps for the lifetime of a process - module-level caches, "seen" sets, memoised dates, warning registries,
+    libc's hidden time-zone state - starts out as in the fresh interpreter that replays the file."""
+    d, viols, counters = _fork_call(lambda: _summary(prop, scn), timeout)
+    return IsolatedRun(d), viols, counters
 
 
 def make_scenario(prop: Prop, stratum: Stratum, master: int, i: int) -> Dict[str, Any]:
@@ -115,6 +202,12 @@ def registry() -> Dict[str, Prop]:
 
 
 def _work(args):
+    """A pool worker never runs a scenario itself: every chunk is one forked process lifetime, so what a chunk sees
+    depends only on the chunk (whose composition is a function of the seed), not on which worker picked it up."""
+    return _fork_call(lambda: _work_chunk(args), 3600.0)
+
+
+def _work_chunk(args):
     pid, tier, master, stratum_name, indices, resample_every = args
     faulthandler.dump_traceback_later(600, exit=True)
     prop = registry()[pid]
@@ -123,7 +216,10 @@ def _work(args):
                            "sigs": [], "nontrivial": [], "sim_time": 0.0,
                            "samples": [], "resamples": 0, "resample_mismatch": [], "errors": [], "steps": 0}
     per_key: Dict[str, int] = {}
-    for i in indices:
+    executed: List[int] = []          # what this process has executed so far, re-executions included
+    for pos, i in enumerate(indices):
+        before = list(executed)
+        executed.append(i)
         try:
             scn = make_scenario(prop, stratum, master, i)
             run, viols, counters = run_scenario(prop, scn)
@@ -152,9 +248,11 @@ def _work(args):
         for key, msg in viols:
             if per_key.get(key, 0) < 2:
                 per_key[key] = per_key.get(key, 0) + 1
-                out["viols"].append((key, msg, scn))
+                # (what this process had executed before: needed only if the violation turns out to depend on it)
+                out["viols"].append((key, msg, scn, (stratum_name, before)))
         if resample_every and out["runs"] % resample_every == 1:
             run2 = execute(copy.deepcopy(scn))
+            executed.append(i)
             out["resamples"] += 1
             if run2.digest != run.digest:
                 out["resample_mismatch"].append((stratum_name, i))
@@ -193,22 +291,65 @@ def known_open(pid: str, key: str) -> Optional[Dict[str, str]]:
 
 def reproduces(prop: Prop, scn: Dict[str, Any], key: str) -> bool:
     try:
-        _, viols, _ = run_scenario(prop, scn)
+        _, viols, _ = run_isolated(prop, scn)
     except Exception:
         return False
     return any(k == key for k, _ in viols)
 
 
-def minimise(prop: Prop, scn: Dict[str, Any], key: str, budget: int = 400) -> Dict[str, Any]:
+def minimise(prop: Prop, scn: Dict[str, Any], key: str, budget: int = 400, wall_cap: float = 240.0) -> Dict[str, Any]:
     best = copy.deepcopy(scn)
     tries = [0]
+    deadline = time.time() + wall_cap
 
     def ok(cand) -> bool:
-        if tries[0] >= budget:
+        if tries[0] >= budget or time.time() > deadline:
             return False
         tries[0] += 1
         return reproduces(prop, cand, key)
 
+    # 0. ddmin over the prelude (scenarios the process had run before), if there is one
+    pre = best.get("prelude") or []
+    from_prelude = len(pre)
+    n = 2
+    while pre and tries[0] < budget and time.time() < deadline:
+        chunk = max(1, len(pre) // n)
+        reduced = False
+        for start in range(0, len(pre), chunk):
+            cand = copy.deepcopy(best)
+            cand["prelude"] = pre[:start] + pre[start + chunk:]
+            if ok(cand):
+                best = cand
+                pre = best["prelude"]
+                n = max(n - 1, 2)
+                reduced = True
+                break
+        if not reduced:
+            if chunk == 1:
+                break
+            n = min(n * 2, len(pre))
+    if "prelude" in best and not best["prelude"]:
+        del best["prelude"]
+    for pi in range(len(best.get("prelude", []))):
+        # ... and each remaining prelude scenario's steps
+        psteps = best["prelude"][pi]["steps"]
+        n = 2
+        while len(psteps) >= 2 and tries[0] < budget and time.time() < deadline:
+            chunk = max(1, len(psteps) // n)
+            reduced = False
+            for start in range(0, len(psteps), chunk):
+                cand = copy.deepcopy(best)
+                cand["prelude"][pi]["steps"] = psteps[:start] + psteps[start + chunk:]
+                if cand["prelude"][pi]["steps"] and ok(cand):
+                    best = cand
+                    psteps = best["prelude"][pi]["steps"]
+                    n = max(n - 1, 2)
+                    reduced = True
+                    break
+            if not reduced:
+                if chunk == 1:
+                    break
+                n = min(n * 2, len(psteps))
     # 1. ddmin over steps
     n = 2
     steps = best["steps"]
@@ -252,6 +393,9 @@ def minimise(prop: Prop, scn: Dict[str, Any], key: str, budget: int = 400) -> Di
             if ok(cand):
                 best = cand
     best["minimised"] = {"candidate_runs": tries[0], "from_steps": len(scn["steps"]), "to_steps": len(best["steps"])}
+    if from_prelude:
+        best["minimised"]["from_prelude_scenarios"] = from_prelude
+        best["minimised"]["to_prelude_scenarios"] = len(best.get("prelude", []))
     return best
 
 
@@ -327,7 +471,7 @@ def run_check(pid: str, tier: str, master: int) -> int:
         idx = list(range(s.count))
         if s.systematic:
             random.Random(item_seed(master, pid, s.name, -1)).shuffle(idx)
-        chunk = max(20, min(400, s.count // (workers * 4) or 1))
+        chunk = max(20, min(400, s.count // 64 or 1))        # (a function of the stratum only, never of the worker count)
         for a in range(0, len(idx), chunk):
             jobs.append((pid, tier, master, s.name, idx[a:a + chunk], 50))
     agg: Dict[str, Any] = {"runs": 0, "viols": [], "counters": {}, "fired": {}, "sim_time": 0.0, "samples": {},
@@ -343,6 +487,8 @@ def run_check(pid: str, tier: str, master: int) -> int:
                 j = futs[f]
                 try:
                     r = f.result()
+                except cf.CancelledError:
+                    continue              # cancelled by us after the budget ran out (stopped_early is set)
                 except Exception as e:
                     agg["errors"].append("worker failed on stratum %s: %r" % (j[3], e))
                     continue
@@ -371,11 +517,34 @@ def run_check(pid: str, tier: str, master: int) -> int:
         except cf.TimeoutError:
             agg["errors"].append("batch timed out")
     harness_error = bool(agg["errors"])
-    nondeterministic = bool(agg["resample_mismatch"])
+    # An in-place re-execution that differs is either the harness's fault (a forgotten source of nondeterminism) or
+    # the code under test keeping state between runs in one process.  Tell them apart: executed twice, each time in
+    # a process that has run nothing else, the scenario must give one and the same event log.
+    nondeterministic = False
+    state_between_runs = 0
+    for sname, i in agg["resample_mismatch"][:3]:
+        try:
+            sc = make_scenario(prop, [x for x in strata if x.name == sname][0], master, i)
+            d1 = run_isolated(prop, copy.deepcopy(sc))[0].digest
+            d2 = run_isolated(prop, copy.deepcopy(sc))[0].digest
+        except Exception as e:  # noqa
+            agg["errors"].append("re-execution of %s/%d failed: %r" % (sname, i, e))
+            harness_error = True
+            continue
+        if d1 != d2:
+            nondeterministic = True
+        else:
+            state_between_runs += 1
+    if state_between_runs:
+        print("NOTE: %d re-executions inside a worker differed from their first execution while isolated executions "
+              "agree: the code under test keeps state between runs in one process" % len(agg["resample_mismatch"]))
     # ---- violations: minimise, write replay, verify, report
     by_key: Dict[str, List[tuple]] = {}
-    for key, msg, scn in agg["viols"]:
-        by_key.setdefault(key, []).append((msg, scn))
+    for key, msg, scn, hist in agg["viols"]:
+        by_key.setdefault(key, []).append((msg, scn, hist))
+    strata_by_name = {s.name: s for s in strata}
+    lifetime_state: List[str] = []
+    mini_deadline = time.time() + float(os.environ.get("VERIF_MINIMISE_S", "900"))
     new_violation = False
     cross_run_state: List[str] = []
     known_matched = []
@@ -383,9 +552,34 @@ def run_check(pid: str, tier: str, master: int) -> int:
     replay_dir = os.environ.get("VERIF_REPLAY_DIR") or os.path.join(VERIF, "replays")
     os.makedirs(replay_dir, exist_ok=True)
     for key in sorted(by_key)[:12]:
-        msg, scn = min(by_key[key], key=lambda ms: len(ms[1]["steps"]))
         kf = known_open(pid, key)
-        small = minimise(prop, scn, key)
+        # 1. a scenario that shows the violation in a process that has run nothing else
+        start = None
+        cands = sorted(by_key[key], key=lambda ms: len(ms[1]["steps"]))
+        # (scenarios that were the first of their process cannot have depended on earlier ones: try those first)
+        firsts = [c for c in cands if not c[2][1]]
+        for msg, scn, hist in firsts[:2] + [c for c in cands if c[2][1]][:3]:
+            if reproduces(prop, scn, key):
+                start = scn
+                break
+        if start is None:
+            # 2. the violation needs what the process had done before (state the code under test keeps for the
+            #    lifetime of a process): replay = the chunk's earlier scenarios as a prelude + the scenario
+            for msg, scn, hist in sorted((c for c in by_key[key] if c[2][1]), key=lambda ms: len(ms[2][1]))[:3]:
+                st = strata_by_name[hist[0]]
+                comp = copy.deepcopy(scn)
+                comp["prelude"] = [make_scenario(prop, st, master, i) for i in hist[1]]
+                if comp["prelude"] and reproduces(prop, comp, key):
+                    start = comp
+                    lifetime_state.append(key)
+                    break
+        if start is None:
+            msg, scn, hist = cands[0]
+            start = scn
+        small = minimise(prop, start, key, wall_cap=max(20.0, min(240.0, mini_deadline - time.time())))
+        if "prelude" in small:
+            small["note"] = ("the violation depends on state the code under test keeps for the lifetime of a process: "
+                             "the prelude holds the scenarios the same process had executed before")
         small["expect"] = {"property": pid, "key": key, "message": msg}
         blob = json.dumps(small, sort_keys=True, indent=1)
         name = "%s-%d-%s.json" % (pid, master, hashlib.sha256(key.encode()).hexdigest()[:10])
@@ -403,7 +597,7 @@ def run_check(pid: str, tier: str, master: int) -> int:
             # cache, say), which in-process minimisation silently relies on.  Fall back to scenarios as generated,
             # judged in a fresh interpreter each, and minimise there (slowly, small budget).
             fresh = None
-            for _, cand in sorted(by_key[key], key=lambda ms: -len(ms[1]["steps"]))[:8]:
+            for _, cand, _h in sorted(by_key[key], key=lambda ms: -len(ms[1]["steps"]))[:8]:
                 if reproduces_fresh(pid, cand, key, path):
                     fresh = cand
                     break
@@ -464,7 +658,9 @@ def run_check(pid: str, tier: str, master: int) -> int:
             "observations": dict(sorted(agg["counters"].items())),
             "real_vs_stub": prop.real_vs_stub,
             "determinism_resamples": agg["resamples"],
-            "determinism_mismatches": len(agg["resample_mismatch"]),
+            "determinism_mismatches": len(agg["resample_mismatch"]) if nondeterministic else 0,
+            "reexecutions_differing_through_process_lifetime_state": len(agg["resample_mismatch"]) if not nondeterministic else 0,
+            "violations_needing_a_prelude": lifetime_state,
             "known_findings_matched": known_matched,
             "reported": reported,
             "stopped_early_on_budget": stopped_early,
@@ -479,7 +675,7 @@ def run_check(pid: str, tier: str, master: int) -> int:
         agg["runs"], distinct, agg["sim_time"], wall, json.dumps(dict(sorted(agg["fired"].items())))), flush=True)
     for e in agg["errors"][:5]:
         print("HARNESS-ERROR: %s" % e)
-    if agg["resample_mismatch"]:
+    if nondeterministic:
         print("HARNESS-ERROR: nondeterministic runs: %s" % agg["resample_mismatch"][:5])
     if new_violation:
         return 1
